@@ -57,6 +57,21 @@ pub fn check_node(p: &Pos, board: &Board, start_fen: &str, path: &[String]) -> R
             here(),
         ));
     }
+    // asking again on the same board object gives the same answer (every fourth node)
+    if p.pos_id().fp64() % 4 == 0 {
+        if let Ok(again) = guard(|| eng::legal_second_call(board)) {
+            let mut again_uci: Vec<String> = again.iter().map(eng::ply_uci).collect();
+            again_uci.sort();
+            if again_uci != want_uci {
+                return Err(Violation::new(
+                    "moves",
+                    "moves/set/second-call-differs",
+                    format!("the second get_legal_moves() on the same board differs from the rules at {} [{}]: got {:?}, rules {:?}", p.to_fen(), path.join(" "), again_uci, want_uci),
+                    here(),
+                ));
+            }
+        }
+    }
     // check status for both colours
     for white in [true, false] {
         let w = p.in_check(white);
@@ -385,7 +400,7 @@ pub fn replay(_ctx: &Ctx, case: &Value) -> Report {
 }
 
 pub const LEVEL: &str = "exploration";
-pub const RULE: &str = "positions = every node of bounded exhaustive lock-step walks (start position to depth 4 quick / 5 thorough, every corpus FEN to the deepest depth (1..6) whose estimated walk fits 8 000 / 100 000 nodes) plus every position of proptest-generated games (uniform and special-move-weighted) from startpos / corpus / synthesised / pattern starts. At each: engine legal-move multiset == oracle set (both directions, no duplicates), every offered move produces the oracle's successor placement, engine flags == oracle flags, is_in_check for both colours. Non-trivial = position whose legal set differs from its pseudo-legal set (pin / check evasion) or that offers castling, e.p. or promotion, or where castling/e.p. is pseudo-available but illegal, or mate/stalemate; distinct by position identity (placement, side, rights, e.p. file).";
+pub const RULE: &str = "positions = every node of bounded exhaustive lock-step walks (start position to depth 4 quick / 5 thorough, every corpus FEN to the deepest depth (1..6) whose estimated walk fits 8 000 / 100 000 nodes) plus every position of proptest-generated games (uniform and special-move-weighted) from startpos / corpus / synthesised / pattern starts. At each: engine legal-move multiset == oracle set (both directions, no duplicates), at every fourth position the list returned by a SECOND call on the same board object equals the oracle set too, every offered move produces the oracle's successor placement, engine flags == oracle flags, is_in_check for both colours. Non-trivial = position whose legal set differs from its pseudo-legal set (pin / check evasion) or that offers castling, e.p. or promotion, or where castling/e.p. is pseudo-available but illegal, or mate/stalemate; distinct by position identity (placement, side, rights, e.p. file).";
 pub const ASSUMPTIONS: &[&str] = &[
     "the independent rules oracle (vf/oracle.rs), validated against published perft values at the start of every run",
     "FEN loading of the start positions (C07's subject) is used to set positions up",
